@@ -118,6 +118,115 @@ func branchOfBoolParam(b *ssa.BasicBlock, param ssa.Value) int {
 	return -1
 }
 
+// vstore is one value a setter stores into the flags byte, with the polarity of the boolean argument under which
+// it is stored (-1 for multi-bit setters) and the environment to evaluate it in.
+type vstore struct {
+	val ssa.Value
+	pol int
+	env *bits.Env
+}
+
+// edgePolarity: the value of the boolean parameter on the control-flow edge pb -> to.
+func edgePolarity(pb, to *ssa.BasicBlock, param ssa.Value) int {
+	if iff, ok := pb.Instrs[len(pb.Instrs)-1].(*ssa.If); ok {
+		cond, neg := iff.Cond, false
+		if u, ok := cond.(*ssa.UnOp); ok && u.Op == token.NOT {
+			cond, neg = u.X, true
+		}
+		if cond == param && pb.Succs[0] != pb.Succs[1] {
+			for e := 0; e < 2; e++ {
+				if pb.Succs[e] == to {
+					pol := 1 - e
+					if neg {
+						pol = 1 - pol
+					}
+					return pol
+				}
+			}
+		}
+	}
+	return branchOfBoolParam(pb, param)
+}
+
+// flagStores lists what fn stores into the flags byte: its own stores (a store behind the join of `if v` is split
+// by the edges of its phi), or - when it has none - those of the one helper of the same type it hands its argument
+// to (`m.setConnectFlag(0x4, v)`), with the helper's other parameters bound to the constants passed.
+func flagStores(fn *ssa.Function, param ssa.Value, nbits int, depth int) (out []vstore, unk []string) {
+	newEnv := func() *bits.Env {
+		e := &bits.Env{IsFlags: isFlagsAddr}
+		if nbits != 1 {
+			e.Param, e.ParamBits = param, nbits
+		}
+		return e
+	}
+	for _, b := range fn.Blocks {
+		for _, in := range b.Instrs {
+			st, ok := in.(*ssa.Store)
+			if !ok || !isFlagsAddr(st.Addr) {
+				continue
+			}
+			if nbits != 1 {
+				out = append(out, vstore{st.Val, -1, newEnv()})
+				continue
+			}
+			if pol := branchOfBoolParam(b, param); pol >= 0 {
+				out = append(out, vstore{st.Val, pol, newEnv()})
+				continue
+			}
+			if ph, ok := st.Val.(*ssa.Phi); ok {
+				all := true
+				var part []vstore
+				for i, e := range ph.Edges {
+					pol := edgePolarity(ph.Block().Preds[i], ph.Block(), param)
+					if pol < 0 {
+						all = false
+						break
+					}
+					part = append(part, vstore{e, pol, newEnv()})
+				}
+				if all {
+					out = append(out, part...)
+					continue
+				}
+			}
+			unk = append(unk, "a store to the flags byte is not controlled by a test of the boolean argument")
+		}
+	}
+	if len(out) > 0 || len(unk) > 0 || depth == 0 {
+		return
+	}
+	// no store of its own: a helper of the same type that receives the argument
+	for _, call := range ir.Calls(fn) {
+		h := call.Common().StaticCallee()
+		if h == nil || h.Blocks == nil || h == fn || h.Signature.Recv() == nil || recvNamed(h) != recvNamed(fn) {
+			continue
+		}
+		var hparam ssa.Value
+		args := call.Common().Args
+		for i, a := range args {
+			if a == param && i < len(h.Params) {
+				hparam = h.Params[i]
+			}
+		}
+		if hparam == nil {
+			continue
+		}
+		vs, u := flagStores(h, hparam, nbits, depth-1)
+		for i := range vs {
+			for j, a := range args {
+				if k, ok := a.(*ssa.Const); ok && j < len(h.Params) {
+					if cv, ok := constant.Uint64Val(constant.ToInt(k.Value)); ok && k.Value != nil && k.Value.Kind() == constant.Int {
+						vs[i].env.Bind(h.Params[j], bits.Const(cv))
+					}
+				}
+			}
+		}
+		out = append(out, vs...)
+		unk = append(unk, u...)
+	}
+	return
+}
+
 // flagBitTables: getters and setters of the CONNECT flags byte and of the PUBLISH
 // flags agree with each other and with the MQTT bit layout; a setter touches only
 // its own bits (plus the listed dependents). Decided in the known-bits domain.
@@ -183,56 +292,44 @@ func (c *Ctx) flagBitTables() {
 		var sbad, sunk []string
 		seenPol := map[int]bool{}
 		stores := 0
-		for _, b := range s.Blocks {
-			for _, in := range b.Instrs {
-				st, ok := in.(*ssa.Store)
-				if !ok || !isFlagsAddr(st.Addr) {
+		vs, unk := flagStores(s, param, nbits, 1)
+		sunk = append(sunk, unk...)
+		for _, x := range vs {
+			stores++
+			pol := x.pol
+			if nbits == 1 {
+				seenPol[pol] = true
+			}
+			v := x.env.Eval(x.val)
+			for i := 0; i < 8; i++ {
+				var want []bits.Bit
+				inOwn := own>>uint(i)&1 == 1
+				switch {
+				case inOwn && nbits == 1 && pol == 1:
+					want = []bits.Bit{{K: bits.One}}
+				case inOwn && nbits == 1 && pol == 0:
+					want = []bits.Bit{{K: bits.Zero}}
+				case inOwn:
+					want = []bits.Bit{{K: bits.Arg, Idx: i - int(fs.shift)}}
+				default:
+					want = []bits.Bit{{K: bits.Old, Idx: i}}
+					if fs.deps>>uint(i)&1 == 1 && pol == 0 {
+						want = append(want, bits.Bit{K: bits.Zero})
+					}
+				}
+				okBit := false
+				for _, w := range want {
+					if v[i] == w {
+						okBit = true
+					}
+				}
+				if okBit {
 					continue
 				}
-				stores++
-				senv := &bits.Env{IsFlags: isFlagsAddr}
-				pol := -1
-				if nbits == 1 {
-					pol = branchOfBoolParam(b, param)
-					if pol < 0 {
-						sunk = append(sunk, "a store to the flags byte is not controlled by a test of the boolean argument")
-						continue
-					}
-					seenPol[pol] = true
+				if v[i].K == bits.Top {
+					sunk = append(sunk, fmt.Sprintf("stored bit %d is not determined", i))
 				} else {
-					senv.Param, senv.ParamBits = param, nbits
-				}
-				v := senv.Eval(st.Val)
-				for i := 0; i < 8; i++ {
-					var want []bits.Bit
-					inOwn := own>>uint(i)&1 == 1
-					switch {
-					case inOwn && nbits == 1 && pol == 1:
-						want = []bits.Bit{{K: bits.One}}
-					case inOwn && nbits == 1 && pol == 0:
-						want = []bits.Bit{{K: bits.Zero}}
-					case inOwn:
-						want = []bits.Bit{{K: bits.Arg, Idx: i - int(fs.shift)}}
-					default:
-						want = []bits.Bit{{K: bits.Old, Idx: i}}
-						if fs.deps>>uint(i)&1 == 1 && pol == 0 {
-							want = append(want, bits.Bit{K: bits.Zero})
-						}
-					}
-					okBit := false
-					for _, w := range want {
-						if v[i] == w {
-							okBit = true
-						}
-					}
-					if okBit {
-						continue
-					}
-					if v[i].K == bits.Top {
-						sunk = append(sunk, fmt.Sprintf("stored bit %d is not determined", i))
-					} else {
-						sbad = append(sbad, fmt.Sprintf("stored bit %d is %s, expected %s", i, bitStr(v[i]), bitStr(want[0])))
-					}
+					sbad = append(sbad, fmt.Sprintf("stored bit %d is %s, expected %s", i, bitStr(v[i]), bitStr(want[0])))
 				}
 			}
 		}
